@@ -36,7 +36,13 @@ def record(select=None, timeout=1500):
         env = dict(os.environ, VERIF_SUITE_TRACES=out, PYTHONPATH='/verif' + os.pathsep + os.environ.get('PYTHONPATH', ''))
         py = '/venv/bin/python -m pytest -q -p no:cacheprovider -p vf.suiteplugin --timeout=900 %s' % (' '.join(select) if select else '')
         # a private network namespace (loopback only), as the baseline is run: the suite binds fixed ports
-        cmd = ['unshare', '-rn', 'sh', '-c', 'ip link set lo up 2>/dev/null; cd %s && %s > %s/log.txt 2>&1' % (common.REPO, py, out)]
+        inner = 'ip link set lo up 2>/dev/null; cd %s && %s > %s/log.txt 2>&1' % (common.REPO, py, out)
+        cmd = ['unshare', '-rn', 'sh', '-c', inner]
+        try:
+            if subprocess.run(['unshare', '-rn', 'true'], capture_output=True, timeout=20).returncode != 0:
+                cmd = ['sh', '-c', inner]           # (no user namespaces here: the suite runs on the host's loopback)
+        except (OSError, subprocess.TimeoutExpired):
+            cmd = ['sh', '-c', inner]
         try:
             subprocess.run(cmd, env=env, timeout=timeout)
         except subprocess.TimeoutExpired:
